@@ -43,7 +43,9 @@ def done (st : St) : Out := ⟨st.segs.reverse, none, st.seqs⟩
 /-- `fn(flag, b)`: the callback sees the segment; if it is the `failAt`-th call it returns an error, which ends `Decode` -/
 def emit (failAt : Option Nat) (st : St) (flag : Nat) (bytes : Bytes) (k : St → P) : P :=
   let st' := { st with segs := ⟨flag, bytes⟩ :: st.segs }
-  if failAt = some st.segs.length then .ret (fail st' .callback) else k st'
+  match failAt with
+  | none => k st'
+  | some j => if j = st.segs.length then .ret (fail st' .callback) else k st'
 
 def le32 : Bytes → Nat
   | a :: b :: c :: d :: _ => a + 256 * b + 65536 * c + 16777216 * d
